@@ -1,4 +1,5 @@
 import GB.C16.Proofs
+import GB.Stack.Lifecycle   -- STACK block at the end of this file (area `stack`)
 /-
   C16 — targets can be added, removed and re-added cleanly.  Property theorems only.
 
@@ -362,3 +363,98 @@ example : (runP true init [.new 0 false, .new 0 true, .get 0, .call 0, .close 0,
      .add .ok (some .absent)] := by decide
 example : GB.LTS.run cstep cinit [.reserve 0, .get 0, .reserve 0, .finish 0 0 false, .reserve 0, .finish 0 1 true, .get 0, .close 1]
     ≠ none := by decide
+
+/-! ═══════════════════════════════════════════════════════════════════════════════════════════════
+    STACK composition block (area `stack`, docs/notes/STACK.md) — BEGIN.
+    The lifecycle model of this file (names are numbers) composed with the combined model `GB.Stack.run`
+    (names are byte strings; C16 present set ∘ aggregateWatcher fan-out ∘ C06 tables) through any injective
+    numbering `enc` of the names.  Kept separate from the C16 theorems above; do not interleave.
+    ═══════════════════════════════════════════════════════════════════════════════════════════════ -/
+section StackBlock
+
+/-- **The lifecycle model and the routing tables agree on who is there**: along ANY ReflectionRouter history
+    (Adds that succeed, fail, are rejected or duplicate; Removes of present and absent names; polls), a name is in
+    the `targets` map of the C16 lifecycle model (⇒ by the C16 theorems: exactly one poller, open watchers, an open
+    pooled connection) iff it is present in the combined model, iff it is watched on BOTH routers of the C06 models.
+    From `C16_refines_present` and `Stack_latest`. -/
+theorem C16_stack_present (valid : Bytes → Bool) (enc : GB.C06.Name → Nat) (hinj : ∀ a b, enc a = enc b → a = b)
+    (h : List GB.Stack.Op) (n : GB.C06.Name) :
+    ((afterR true (stackToC16 enc h)).targets (enc n)).isSome = (GB.Stack.run valid GB.Stack.St.init h).present n ∧
+    (GB.Stack.run valid GB.Stack.St.init h).present n = (GB.C06.latestOf (GB.Stack.toC06 h)).watched n := by
+  have h1 := (C16_refines_present (stackToC16 enc h)).2 (enc n)
+  have h2 := stack_present_agree enc hinj h (fun _ => false) (fun _ => false) (fun _ => rfl) n
+  have h3 := (Stack_run_eq_compile valid h).2.2
+  have h4 := (Stack_latest h).2 n
+  refine ⟨?_, ?_⟩
+  · rw [← h1, h2, h3]; rfl
+  · rw [h3]; exact h4
+
+/-- **Remove, end to end**: when `Remove(T)` of a present name has returned, the lifecycle model has no entry for it
+    (`C16_remove`: poller stopped, watchers closed, connection closed) AND no lookup on either routing table answers
+    with `T` (`Stack_removed_unroutable`), while every other present name is still present on both sides. -/
+theorem C16_stack_remove (valid : Bytes → Bool) (eval : Bytes → GB.C06.Route → GB.C06.Outcome)
+    (enc : GB.C06.Name → Nat) (hinj : ∀ a b, enc a = enc b → a = b) (h : List GB.Stack.Op) (T : GB.C06.Name) :
+    let h' := h ++ [GB.Stack.Op.remove T]
+    let st := GB.Stack.run valid GB.Stack.St.init h'
+    (afterR true (stackToC16 enc h')).targets (enc T) = none ∧
+    (∀ S r, st.svc.routes S = some r → r.target ≠ T) ∧
+    (∀ m path v r, GB.C06.routeHTTP st.present eval st.pat.static m path ≠ .found T v r) := by
+  intro h' st
+  obtain ⟨hp, hs, hh, _⟩ := Stack_removed_unroutable valid eval h T
+  refine ⟨?_, hs, hh⟩
+  have := (C16_stack_present valid enc hinj h' T).1
+  rw [hp] at this
+  cases hx : (afterR true (stackToC16 enc h')).targets (enc T) with
+  | none => rfl
+  | some g => rw [hx] at this; simp at this
+
+section Restated
+open GB.C06 GB.Stack
+
+/-- `Stack_run_eq_compile` (GB/Stack/Props.lean), restated here so that `./check C16` audits it. -/
+theorem C16_stack_run_eq_compile (valid : Bytes → Bool) (h : List GB.Stack.Op) :
+    (run valid St.init h).pat = PatState.init.run valid (toC06 h) ∧
+    (run valid St.init h).svc = SvcState.init.run (toC06 h) ∧
+    (run valid St.init h).present = presentOf h :=
+  Stack_run_eq_compile valid h
+
+/-- `Stack_latest` (GB/Stack/Props.lean), restated here so that `./check C16` audits it. -/
+theorem C16_stack_latest (h : List GB.Stack.Op) :
+    latestOf (toC06 h) = specLatest h ∧ ∀ n, presentOf h n = (latestOf (toC06 h)).watched n :=
+  Stack_latest h
+
+/-- `Stack_failed_add_no_trace` (GB/Stack/Props.lean), restated here so that `./check C16` audits it. -/
+theorem C16_stack_failed_add_no_trace (valid : Bytes → Bool) (h : List GB.Stack.Op) (n : GB.C06.Name) (d : Option Desc) :
+    run valid St.init (h ++ [.addFail n]) = run valid St.init h ∧
+    (presentOf h n = true → run valid St.init (h ++ [.add n d]) = run valid St.init h) ∧
+    (presentOf h n = false → run valid St.init (h ++ [.remove n]) = run valid St.init h) :=
+  Stack_failed_add_no_trace valid h n d
+
+/-- `Stack_readd_new_contract` (GB/Stack/Props.lean), restated here so that `./check C16` audits it. -/
+theorem C16_stack_readd_new_contract (valid : Bytes → Bool) (eval : Bytes → Route → GB.C06.Outcome) (h : List GB.Stack.Op) (T : GB.C06.Name)
+    (d' : Desc) (habs : presentOf h T = false) :
+    let h' := h ++ [.add T (some d')]
+    let st := run valid St.init h'
+    (specLatest h').desc T = some (named T d') ∧
+    (∀ S r, st.svc.routes S = some r → r.target = T → listed (named T d').services S ∧ r.ver = d'.ver) ∧
+    (∀ m path v r, routeHTTP st.present eval st.pat.static m path = .found T v r →
+        v = d'.ver ∧ ∃ rs, built valid (named T d') m = some rs ∧ r ∈ rs) :=
+  Stack_readd_new_contract valid eval h T d' habs
+
+/-- `Stack_removed_unroutable` (GB/Stack/Props.lean), restated here so that `./check C16` audits it. -/
+theorem C16_stack_removed_unroutable (valid : Bytes → Bool) (eval : Bytes → Route → GB.C06.Outcome) (h : List GB.Stack.Op) (T : GB.C06.Name) :
+    let st := run valid St.init (h ++ [.remove T])
+    st.present T = false ∧
+    (∀ S r, st.svc.routes S = some r → r.target ≠ T) ∧
+    (∀ m path v r, routeHTTP st.present eval st.pat.static m path ≠ .found T v r) ∧
+    (∀ S r, (run valid St.init h).svc.routes S = some r → r.target ≠ T → st.svc.routes S = some r) :=
+  Stack_removed_unroutable valid eval h T
+
+end Restated
+
+example : ((afterR true (stackToC16 stackEnc [.add [97] none, .addFail [98], .remove [97], .add [97] none])).targets
+    (stackEnc [97])).isSome = true := by
+  rw [(C16_stack_present (fun _ => true) stackEnc stackEnc_injective _ [97]).1]; decide
+
+end StackBlock
+/-! STACK composition block — END -/
